@@ -1,4 +1,14 @@
 ---- MODULE TmpSS ----
-EXTENDS ScanSelectDomain, TLC
-ASSUME PrintT(<<"VF", "A", FamilySizes(TRUE), Cardinality(SelWorlds(TRUE)), Cardinality(SelWorlds(FALSE))>>)
+EXTENDS RawLogDomain, TLC, Json, IOUtils, SequencesExt
+C == Cases(FALSE)
+All == SetToSeq(C)
+B == 500
+Batches == [b \in 1..((Len(All) + B - 1) \div B) |->
+              [cases |-> [k \in 1..(IF b * B <= Len(All) THEN B ELSE Len(All) - (b - 1) * B) |-> All[(b - 1) * B + k]]]]
+ASSUME PrintT(<<"T0", JavaTime>>)
+ASSUME PrintT(<<"T1", JavaTime, Cardinality(C)>>)
+ASSUME PrintT(<<"T2", JavaTime, Len(All)>>)
+ASSUME PrintT(<<"T3", JavaTime, Len(Batches)>>)
+ASSUME PrintT(<<"T4", JavaTime, ndJsonSerialize("/tmp/scan-agent/tmp.ndjson", Batches)>>)
+ASSUME PrintT(<<"T5", JavaTime>>)
 ====
